@@ -54,7 +54,7 @@ func fallbackAssigns(fd *ast.FuncDecl) map[string]int64 {
 	return res
 }
 
-func qCmp(op token.Token) (string, bool) {
+func cloneQCmp(op token.Token) (string, bool) {
 	switch op {
 	case token.GTR:
 		return "clone_Qlt b a", true // a > b
@@ -68,7 +68,7 @@ func qCmp(op token.Token) (string, bool) {
 	return "", false
 }
 
-func zCmp(op token.Token) (string, bool) {
+func cloneZCmp(op token.Token) (string, bool) {
 	switch op {
 	case token.GTR:
 		return "Z.ltb b a", true
@@ -124,11 +124,11 @@ func init() {
 			return fd
 		}
 		emitQcmp := func(name string, c cmpAt) {
-			s, _ := qCmp(c.op)
+			s, _ := cloneQCmp(c.op)
 			fmt.Fprintf(&b, "(* %s %s %s *)\nDefinition %s (a b : Q) : bool := %s.\n", c.x, c.op, c.y, name, s)
 		}
 		emitZcmp := func(name string, c cmpAt) {
-			s, _ := zCmp(c.op)
+			s, _ := cloneZCmp(c.op)
 			fmt.Fprintf(&b, "(* %s %s %s *)\nDefinition %s (a b : Z) : bool := %s.\n", c.x, c.op, c.y, name, s)
 		}
 
